@@ -380,6 +380,11 @@ func (db *DB) Merge() error {
 				if err == io.EOF {
 					break
 				}
+				// a torn record (interrupted or failed write) is the tail of its segment, exactly as
+				// when the segment is read by Open; aborting here would leave the merge half done
+				if err == ErrCrc {
+					break
+				}
 				f.rwManager.Close()
 				return fmt.Errorf("when merge operation build hintIndex readAt err: %s", err)
 			}
